@@ -102,7 +102,7 @@ void run_cvc(uint64_t seed, const sk_mask* mask, sk_result* out)
 	{
 		actor_t* a = &A[i];
 		actor_t* ca = &A[i - 1];
-		int viol = sk_chance(&r, 1, 3) ? (int)(1 + sk_below(&r, 8)) : 0;
+		int viol = sk_chance(&r, 1, 3) ? (int)(1 + sk_below(&r, 10)) : 0;
 		int expect_ok = 1;
 		size_t namelen = 8 + sk_below(&r, 5);
 		a->privlen = PL[sk_below(&r, 4)];
@@ -132,6 +132,18 @@ void run_cvc(uint64_t seed, const sk_mask* mask, sk_result* out)
 		case 6: a->cvc.from[2] = 1, a->cvc.from[3] = 3; expect_ok = 0; break;    /* invalid calendar date: month 13 */
 		case 7: b2_date(a->cvc.until, a->from ? a->from - 1 : 0); if (a->from) expect_ok = 0; break; /* from > until */
 		case 8: a->cvc.until[4] = 3, a->cvc.until[5] = 2; expect_ok = 0; break;  /* day 32 */
+		case 9: /* authority is a proper prefix of the issuer's name (still a legal name) */
+			if (strlen(ca->cvc.holder) >= 9)
+				a->cvc.authority[strlen(ca->cvc.holder) - 1] = 0, expect_ok = 0;
+			else
+				viol = 0;
+			break;
+		case 10: /* authority is the issuer's name with one more character */
+			if (strlen(ca->cvc.holder) <= 11)
+				a->cvc.authority[strlen(ca->cvc.holder)] = '7', expect_ok = 0;
+			else
+				viol = 0;
+			break;
 		}
 		n = 0;
 		{
